@@ -473,11 +473,53 @@ def emit_obligations(res, repo, ok, bad, prefix):
             ok(name, "the printed value is hash[:8] - the same 32-bit prefix in every back end")
         else:
             bad(name, f"{fn}:{func} line {ln} prints {src(node.value)} instead of the first eight hex digits of the definition's hash")
+    define_separation(res, repo, ok, bad, prefix)
     for fn in ("python.py", "c99.py", "javascript.py", "matlab.py"):
         if not any(s[0] == fn for s in sites):
             bad(f"{prefix}/emit/{fn}:present", f"{fn} prints no version hash at all")
         else:
             ok(f"{prefix}/emit/{fn}:present", "the back end prints the version hash")
+
+
+def define_separation(res, repo, ok, bad, prefix):
+    """E2 (C back end): in every `#define <name> <value>` the emitter prints, the macro name and its value are separate tokens whatever the
+    length of the name: between the name hole (padded with a format spec, which pads but never truncates or separates) and the value there is a
+    literal white-space character.  C13 looks at the HASH_ defines only, C04 at every define that carries a value."""
+    path = os.path.join(repo, "src", "pyrtma", "compilers", "c99.py")
+    try:
+        tree = ast.parse(open(path).read())
+    except (OSError, SyntaxError) as ex:
+        res["crashes"].append(f"c99.py: {ex}")
+        return
+    seen = {}
+    for fd in [n for n in ast.walk(tree) if isinstance(n, ast.FunctionDef)]:
+        for js in [n for n in ast.walk(fd) if isinstance(n, ast.JoinedStr)]:
+            vals = js.values
+            if not (vals and isinstance(vals[0], ast.Constant) and isinstance(vals[0].value, str) and vals[0].value.lstrip().startswith("#define ")):
+                continue
+            holes = [i for i, v in enumerate(vals) if isinstance(v, ast.FormattedValue)]
+            if len(holes) < 2:
+                continue            # `#define NAME` guards and version strings: one hole, nothing to glue
+            is_hash = "HASH_" in vals[0].value
+            if prefix == "C13" and not is_hash:
+                continue
+            name = f"{prefix}/emit/c99.py:{fd.name}/define-name-and-value-are-separate-tokens"
+            k = seen.get(name, 0)
+            seen[name] = k + 1
+            if k:
+                name += f"[{k}]"
+            glued = None
+            for a, b in zip(holes, holes[1:]):
+                lit = "".join(v.value for v in vals[a + 1:b] if isinstance(v, ast.Constant) and isinstance(v.value, str))
+                if not any(ch in " \t" for ch in lit):
+                    glued = (src(vals[a]), lit, src(vals[b]))
+                    break
+            if glued is None:
+                ok(name, f"{fd.name}: a literal blank separates the macro name from its value for every name length")
+            else:
+                bad(name, f"c99.py:{fd.name} line {js.lineno} prints `#define` with nothing but {glued[1]!r} between {glued[0]} and {glued[2]}: the format spec pads short names only, so for a "
+                          "name that fills the column the C preprocessor reads name and value as ONE macro name with an empty body - the C output then defines no such id / constant / hash "
+                          "while the other outputs do")
 
 
 def replay_open(res, repo):
